@@ -89,6 +89,22 @@ def level2():
     return out
 
 
+def random_tree(rnd, depth):
+    """a random tree with builder nestings `depth` deep (leaves X<1>, Dx<1>, SplineOperator(v), I)"""
+    if depth == 0: return rnd.choice(SMALL_LEAVES + [('I',)])
+    if rnd.random() < 0.45:
+        return unary(rnd.choice(UNARY), random_tree(rnd, depth - 1))
+    b = rnd.choice(BINARY)
+    deep, shallow = random_tree(rnd, depth - 1), random_tree(rnd, rnd.randrange(depth))
+    return (b, deep, shallow) if rnd.random() < 0.5 else (b, shallow, deep)
+
+
+def count_factors(n):
+    """number of position / spline factors (each raises the order of the result by one)"""
+    if n[0] in ('X', 'V'): return n[1] if n[0] == 'X' else 1
+    return sum(count_factors(c) for c in n[1:] if isinstance(c, tuple)) if n[0] == 'mul' else max([count_factors(c) for c in n[1:] if isinstance(c, tuple)] + [0])
+
+
 def constructor_pairs():
     """Every ordered pair of builder functions nested once: unary(unary(X<1>)), and each binary builder with a composite
     unary child on either side. Always included, so that an interaction between two cooperating builders (e.g. unary minus
@@ -148,6 +164,15 @@ def main():
             rnd.shuffle(l2)
             l2 = l2[:int(os.environ.get('C05_L2_QUICK', '160'))]
         trees += [(lib(t), t) for t in l2]
+        # deeper nestings (three and four builders deep): a seeded sample, the same on every run with the same seed
+        rnd3 = random.Random(1000 + seed)
+        deep = []
+        want = int(os.environ.get('C05_DEEP', '48' if tier == 'quick' else '240'))
+        while len(deep) < want:
+            t = random_tree(rnd3, 3 if len(deep) % 3 else 4)
+            if t in have or count_factors(t) > 4: continue
+            have.add(t); deep.append(t)
+        trees += [(lib(t), t) for t in deep]
         common = 'c05_common.h'
         adder = 'add_tree'
     else:
@@ -170,7 +195,7 @@ def main():
     if mode == 'c05':
         per = (len(trees) + ntu - 1) // ntu
         for k in range(ntu):
-            part = trees[k * per:(k + 1) * per]
+            part = trees[k::ntu]   # strided, so that the (larger) deep trees spread over all translation units
             if not part: continue
             fn = os.path.join(outdir, 'C05_gen_%d.cpp' % k)
             with open(fn, 'w') as f:
